@@ -14,7 +14,12 @@ SUPPORTED = ['FULLY_CONNECTED', 'BATCH_MATMUL', 'CONV_2D', 'DEPTHWISE_CONV_2D',
              'TRANSPOSE_CONV', 'AVERAGE_POOL_2D', 'RESHAPE', 'EMBEDDING_LOOKUP',
              'SOFTMAX', 'TANH', 'TRANSPOSE', 'GELU', 'ADD', 'SUB', 'MUL', 'MEAN',
              'RSQRT', 'CONCATENATION', 'STRIDED_SLICE', 'SPLIT', 'LOGISTIC']
-UNSUPPORTED = ['RELU', 'NEG', 'ABS', 'MAX_POOL_2D', 'EXP']
+UNSUPPORTED = ['RELU', 'NEG', 'ABS', 'MAX_POOL_2D', 'EXP', 'RNN']
+# a signature may return one tensor twice (same tensor index listed twice in subgraph.outputs)
+DUPLICATE_OUTPUTS = True
+# RSQRT normally reads a positive tensor; a check may allow any operand (NaN in the float model)
+RSQRT_ANY = False
+STATEFUL_ANYWHERE = False
 # value distribution of generated float constants (a check may narrow it)
 CONST_KINDS = ['normal'] * 6 + ['pos', 'neg', 'tiny', 'big', 'zero']
 
@@ -80,6 +85,7 @@ class GraphBuilder:
     self.acts = []        # (tensor id, shape tuple, flags)
     self.consts = []      # float constant tensor ids (for sharing)
     self.nops = 0
+    self.pin = None       # while set, every operand pick that it satisfies returns this activation
 
   # ---- tensors ----
   def tensor(self, name, shape, ttype=FLOAT32, data=None, buffer=None):
@@ -146,6 +152,8 @@ class GraphBuilder:
     c = [(t, s, f) for (t, s, f) in self.acts if pred(s, f)]
     if not c:
       return None
+    if self.pin is not None and pred(self.pin[1], self.pin[2]):
+      return self.pin
     if prefer_recent and self.rng.random() < 0.6:
       return c[-1 - self.rng.randrange(min(2, len(c)))]
     return self.rng.choice(c)
@@ -168,11 +176,29 @@ class GraphBuilder:
       self.op(getattr(B, kind), [x[0]], [out], *opts)
       return True
     if kind == 'RSQRT':
-      x = self.pick(lambda s, f: f['pos'])
+      x = self.pick((lambda s, f: True) if RSQRT_ANY else (lambda s, f: f['pos']))
       if x is None:
         return False
       out = self.act(self.oname(kind), x[1], pos=True)
       self.op(B.RSQRT, [x[0]], [out])
+      return True
+    if kind == 'RNN':
+      if self.idx != 0 and not STATEFUL_ANYWHERE:
+        return False      # F22: calibrate() of another signature would crash in reset_all_variables
+      # a STATEFUL float op the quantizer does not know: the hidden state lives
+      # in a variable tensor (buffer 0, isVariable) that persists across invokes
+      x = self.pick(r2)
+      if x is None:
+        return False
+      units = rng.choice([2, 3, 4])
+      w = self.fconst(self.oname(kind, 'w'), [units, x[1][1]], kind='normal')
+      rw = self.fconst(self.oname(kind, 'rw'), [units, units], kind='normal')
+      b = self.fconst(self.oname(kind, 'b'), [units], kind='normal')
+      st = self.tensor(self.oname(kind, 'state'), [x[1][0], units], FLOAT32, buffer=0)
+      self.g.tensors[st].isVariable = True
+      out = self.act(self.oname(kind), (x[1][0], units))
+      self.op(B.RNN, [x[0], w, rw, b, st], [out], S.BuiltinOptions.RNNOptions,
+              self._mk(S.RNNOptionsT, fusedActivationFunction=S.ActivationFunctionType.TANH))
       return True
     if kind in ('ADD', 'SUB', 'MUL'):
       x = self.pick()
@@ -392,7 +418,11 @@ class GraphBuilder:
     return o
 
 
-def gen_subgraph(mb, sg_index, key, n_ops, op_weights=None, want4d=None):
+FAN_KINDS = ['FULLY_CONNECTED', 'FULLY_CONNECTED', 'TANH', 'LOGISTIC', 'MUL', 'ADD', 'SOFTMAX',
+             'BATCH_MATMUL', 'RESHAPE', 'MEAN']
+
+
+def gen_subgraph(mb, sg_index, key, n_ops, op_weights=None, want4d=None, fanout=0):
   rng = mb.rng
   gb = GraphBuilder(mb, sg_index, key)
   bsz = rng.choice([1, 2])
@@ -410,6 +440,16 @@ def gen_subgraph(mb, sg_index, key, n_ops, op_weights=None, want4d=None):
   kinds = SUPPORTED * 3 + UNSUPPORTED
   if op_weights:
     kinds = op_weights
+  if fanout:
+    # FAN-OUT: the first input is read by `fanout` supported ops (directed: a
+    # tensor that needs several different representations at once)
+    gb.pin = gb.acts[0]
+    tries = 0
+    while gb.nops < fanout and tries < fanout * 8:
+      tries += 1
+      gb.add_op(rng.choice(FAN_KINDS))
+    gb.pin = None
+    n_ops += gb.nops
   tries = 0
   while gb.nops < n_ops and tries < n_ops * 8:
     tries += 1
@@ -425,6 +465,8 @@ def gen_subgraph(mb, sg_index, key, n_ops, op_weights=None, want4d=None):
   if not outs:
     outs = [produced[-1][0]]
   rng.shuffle(outs)
+  if DUPLICATE_OUTPUTS and rng.random() < 0.06:
+    outs.append(rng.choice(outs))      # one tensor returned under two output names
   gb.g.outputs = outs
   gb.g.inputs = np.array(gb.g.inputs, dtype=np.int32)
   gb.g.outputs = np.array(gb.g.outputs, dtype=np.int32)
@@ -447,7 +489,7 @@ def gen_subgraph(mb, sg_index, key, n_ops, op_weights=None, want4d=None):
   return gb
 
 
-def gen_model(rng, n_subgraphs=None, max_ops=8, op_weights=None, force_share=False):
+def gen_model(rng, n_subgraphs=None, max_ops=8, op_weights=None, force_share=False, fanout=0):
   """Returns (model bytes, info dict)."""
   mb = ModelBuilder(rng, name_style=rng.choice([0, 0, 1, 2]))
   if n_subgraphs is None:
@@ -455,7 +497,8 @@ def gen_model(rng, n_subgraphs=None, max_ops=8, op_weights=None, force_share=Fal
   gbs = []
   for i in range(n_subgraphs):
     key = 'serving_default' if n_subgraphs == 1 else f'sig{i}'
-    gbs.append(gen_subgraph(mb, i, key, rng.randint(1, max_ops), op_weights))
+    gbs.append(gen_subgraph(mb, i, key, rng.randint(1, max_ops), op_weights,
+                            want4d=False if fanout else None, fanout=fanout if i == 0 else 0))
   # constants shared across subgraphs: retarget a const of subgraph j>0 to a
   # same-shaped buffer of subgraph 0
   if n_subgraphs > 1 and (force_share or rng.random() < 0.5):
